@@ -118,7 +118,8 @@ pub fn panic_sig(p: &str) -> String {
         None => return p.to_string(),
     };
     let file = loc.rsplit_once(':').map(|x| x.0).unwrap_or(loc);
-    let file = file.strip_prefix("/repo/").unwrap_or(file);
+    // (also when the repository is a scratch copy somewhere else: .../repo/net/src/...)
+    let file = file.find("/repo/").map(|i| &file[i + 6..]).unwrap_or(file);
     // Drop numbers from the message (lengths, indices) to get a class.
     let mut m = String::new();
     let mut last_digit = false;
@@ -323,7 +324,7 @@ impl Run {
         let limit_ms: u64 = std::env::var("VERIF_CALL_TIMEOUT_MS")
             .ok()
             .and_then(|s| s.parse().ok())
-            .unwrap_or(10_000);
+            .unwrap_or(30_000);
         // resident-set guard: an exploration that outgrows memory is a
         // machinery failure (exit 2), never a verdict
         let rss_limit_gb: u64 = std::env::var("VERIF_MAX_RSS_GB")
